@@ -10,8 +10,14 @@ PY = "python3-vt"
 QUICK_CHUNKS = ["qa", "qb", "qc", "qd"]
 ALL_CHUNKS = ["is", "us", "i32", "u32", "i64a", "i64b", "u64a", "u64b",
               "i128a", "i128b", "i128c", "i128d", "u128a", "u128b", "u128c", "u128d"]
+XQ = ["xq%d" % i for i in range(4)]
+XT = ["xt%d" % i for i in range(16)]
 TRANS_Q = ["q"]
 TRANS_ALL = ["t%d" % i for i in range(8)]
+
+LAYOUT = {"quick": QUICK_CHUNKS, "thorough": ALL_CHUNKS}
+XPAIR = {"quick": XQ, "thorough": XT}
+TRANS = {"quick": TRANS_Q, "thorough": TRANS_ALL}
 
 # ---------------------------------------------------------------- layout helpers
 
@@ -41,51 +47,87 @@ def chunk_of(layname, prefer_quick=True):
     return p + "128" + ("a" if f <= 32 else "b" if f <= 64 else "c" if f <= 96 else "d")
 
 
-# ---------------------------------------------------------------- plan table
-# n = events-per-layout knob handed to the driver (`--n`); shards = processes per bin
+# ---------------------------------------------------------------- streams
+# A stream = one driver body run over a family of generated bins.
+#   n      : `--n` per tier (events per layout / type pair knob)
+#   shards : processes per bin per tier
 
-LAYOUT_PLANS = {
-    "C06": dict(body="round", module="round", profiles=["release", "checked"],
-                n={"quick": 6000, "thorough": 40000},
-                drv_args_tier={"thorough": ["--exhaustive", "1"]},
+
+def S(body, chunks=LAYOUT, n=None, shards=None, args=None, args_tier=None):
+    return dict(body=body, chunks=chunks, n=n or {"quick": 1000, "thorough": 8000},
+                shards=shards or {"quick": 4, "thorough": 2}, args=args or [], args_tier=args_tier or {})
+
+
+ST_ARITH = S("arith", n={"quick": 1500, "thorough": 12000})
+ST_ROUND = S("round", n={"quick": 6000, "thorough": 40000}, args_tier={"thorough": ["--exhaustive", "1"]})
+ST_REM = S("rem", n={"quick": 4000, "thorough": 30000}, args_tier={"thorough": ["--exhaustive", "1"]})
+ST_CONVI = S("convi", n={"quick": 250, "thorough": 1500})
+ST_XTYPE = S("xtype", chunks=XPAIR, n={"quick": 600, "thorough": 3000})
+ST_FLT = S("flt", n={"quick": 3000, "thorough": 20000})
+
+GEN_RULE = ("operands come from the seeded in-driver generator: boundary constants (0, +-ulp, +-1, MIN, MAX, 2^k+-1), log-uniform "
+            "magnitudes, sparse/dense/limb-structured patterns and result-targeted partners; ")
+
+PLANS = {
+    "C01": dict(module="arith", streams=[ST_ARITH], profiles=["release", "checked"],
+                rule="one event = one (layout, op, operand pair) with all API forms of the op; " + GEN_RULE +
+                     "partners are solved so the exact product/quotient lands within 2 ulp of a range bound or of zero; a coverage "
+                     "cell is (layout, op, class(a), class(b), fits/over+/over-/div0); distinct_nontrivial counts distinct cells whose "
+                     "operands are neither 0 nor 1.0 (an undercount of distinct inputs)",
+                need_ops=["mul", "div", "mul_r", "div_r"]),
+    "C02": dict(module="arith", streams=[ST_ARITH], profiles=["release", "checked"],
+                rule="one event = one (layout, op, operands) with the checked/saturating/wrapping/overflowing/plain forms of the op; "
+                     + GEN_RULE + "a coverage cell is (layout, op, class(a), class(b), fits/over+/over-/div0); distinct_nontrivial "
+                     "counts distinct cells whose operands are neither 0 nor 1.0",
+                need_ops=["neg", "abs", "add", "sub", "mul", "div", "mul_int", "div_int"]),
+    "C03": dict(module="cmpm", streams=[ST_CONVI, ST_XTYPE, ST_FLT], profiles=["release", "checked"],
+                quick_profiles=["release"],
+                rule="one event = one (lhs layout, lhs value, rhs type, rhs value) with == != < <= > >= partial_cmp in both operand "
+                     "orders (same-type events add cmp/max/min and the Hash byte stream); rhs is one of the 12 primitive integer "
+                     "types, f32/f64 (grid points, exact ties, float neighbours, top binade, subnormals, +-0, +-inf, NaNs) or another "
+                     "fixed layout (100 family pairs x 6 (quick) / 40 (thorough) Frac combinations), chosen equal in value, differing "
+                     "only in bits the lhs cannot hold, or lying in (MAX, 2*MAX] / [2*MIN, MIN) of the lhs; a coverage cell is "
+                     "(type pair, class(lhs), ordering outcome, rhs in-range/overflowing/lost-bits class); non-trivial = no operand 0",
+                need_ops=["cmp:i8", "cmp:u128", "cmpff", "cmpsame", "cmpf32", "cmpf64"], nlay={"quick": 106 + 600, "thorough": 506 + 4000}),
+    "C04": dict(module="conv", streams=[ST_CONVI, ST_XTYPE], profiles=["release", "checked"],
+                rule="one event = one source value converted through from_num/to_num and their checked_/saturating_/wrapping_/"
+                     "overflowing_ forms in both spellings: integer<->fixed for all 12 primitive integer types on every layout, "
+                     "bool->fixed, and fixed->fixed over 100 family pairs x 6 (quick) / 40 (thorough) Frac combinations; sources sit at "
+                     "the destination's range ends +-2 ulp, at 2x the range, at one/half destination ulp, or are structured patterns; "
+                     "a coverage cell is (type pair, class(source), fits/over+/over- [+lost bits]); non-trivial = source != 0",
+                need_ops=["fi:i8", "fi:u128", "fb", "ff"], nlay={"quick": 106 + 600, "thorough": 506 + 4000}),
+    "C05": dict(module="fltm", streams=[ST_FLT], profiles=["release", "checked"],
+                rule="one event = one (layout, fixed value, float bit pattern) with from_num and its four overflow forms, to_num::<f32|f64> "
+                     "and its forms, LossyFrom; floats are exact grid points, exact ties between grid points and the adjacent floats, range "
+                     "ends +- half an ulp, +-0, smallest/largest subnormals, MIN_POSITIVE, the top binade up to MAX, +-inf, quiet/signalling "
+                     "NaNs, and exponents spread around the layout's range; fixed values have tails 100..0 / 011..1 / 100..01 beyond the "
+                     "24th/53rd significant bit; a coverage cell is (layout, float width, float class, fits/over/tie/exact, class of the "
+                     "float result, rounded/exact); non-trivial = neither side zero",
+                need_ops=["fl32", "fl64"]),
+    "C06": dict(module="round", streams=[ST_ROUND], profiles=["release", "checked"],
                 rule="one event = one (layout, value) with all 23 rounding-method outcomes; values are boundary constants, structured "
                      "patterns and integer/half-integer neighbours (k, k+-ulp, k+1/2, k+1/2+-ulp) at both ends of the range; thorough "
                      "enumerates every value of all 8- and 16-bit layouts; a coverage cell is (layout, class(value), fraction class "
                      "int/lo/tie/hi, which of ceil/floor/round/ties-even overflow); non-trivial = value != 0 and fraction != 0",
                 need_ops=["round"]),
-    "C07": dict(body="rem", module="rem", profiles=["release", "checked"],
-                n={"quick": 4000, "thorough": 30000},
-                drv_args_tier={"thorough": ["--exhaustive", "1"]},
+    "C07": dict(module="rem", streams=[ST_REM], profiles=["release", "checked"],
                 rule="one event = one (layout, dividend, divisor) with all remainder / Euclidean forms (fixed or integer divisor); divisors "
                      "include 0, +-1 ulp, MIN, the dividend and its negation, and partners solved so the quotient lands within 2 ulp of a "
                      "range bound; thorough enumerates all operand pairs of the 18 eight-bit layouts; a coverage cell is (layout, op, "
                      "class(a), class(b), quotient fits/over+/over-, remainder fits/over); non-trivial = a not in {0, 1.0} and b != 0",
                 need_ops=["rem", "rem_int", "rem_r", "rem_int_r"]),
-    "C01": dict(body="arith", module="arith", profiles=["release", "checked"],
-                n={"quick": 1500, "thorough": 12000},
-                rule="one event = one (layout, op, operand pair) with all API forms of the op; operands from boundary constants, "
-                     "log-uniform magnitudes, sparse/dense/limb-structured patterns and pairs solved so the exact result lands "
-                     "within 2 ulp of a range bound; a coverage cell is (layout, op, class(a), class(b), fits/over+/over-/div0); "
-                     "distinct_nontrivial counts distinct cells whose operands are neither 0 nor 1.0 (an undercount of distinct inputs)",
-                need_ops=["mul", "div", "mul_r", "div_r"]),
-    "C02": dict(body="arith", module="arith", profiles=["release", "checked"],
-                n={"quick": 1500, "thorough": 12000},
-                rule="one event = one (layout, op, operands) with the checked/saturating/wrapping/overflowing/plain forms of the op; "
-                     "operand synthesis as for C01; a coverage cell is (layout, op, class(a), class(b), fits/over+/over-/div0); "
-                     "distinct_nontrivial counts distinct cells whose operands are neither 0 nor 1.0",
-                need_ops=["neg", "abs", "add", "sub", "mul", "div", "mul_int", "div_int"]),
 }
 
 
-def _floor_layout(plan, tier, nlay_expected):
+def _floor(plan, tier, nlay_expected):
     def floor(M):
         if M["evaluations"] == 0:
             return "no events observed"
         missing = [o for o in plan.get("need_ops", []) if M["ops"].get(o, 0) == 0]
         if missing:
             return "operations never observed: %s" % ",".join(missing)
-        if len(M["layouts"]) < nlay_expected:
-            return "only %d of %d layouts observed" % (len(M["layouts"]), nlay_expected)
+        if len(M["layouts"]) < int(0.9 * nlay_expected):
+            return "only %d of %d layouts / type pairs observed" % (len(M["layouts"]), nlay_expected)
         if len(M["cells"]) < 2:
             return "fewer than 2 non-trivial coverage cells"
         fl = plan.get("floor_extra")
@@ -93,32 +135,35 @@ def _floor_layout(plan, tier, nlay_expected):
     return floor
 
 
+def stream_bins(st, tier):
+    return ["%s_%s" % (st["body"], c) for c in st["chunks"][tier]]
+
+
 def plan(prop, tier, seed):
-    if prop in LAYOUT_PLANS:
-        P = LAYOUT_PLANS[prop]
-        chunks = QUICK_CHUNKS if tier == "quick" else ALL_CHUNKS
-        bins = ["%s_%s" % (P["body"], c) for c in chunks]
-        shards = 4 if tier == "quick" else P.get("thorough_shards", 2)
-        n = P["n"][tier]
+    if prop in PLANS:
+        P = PLANS[prop]
         profiles = P["profiles"] if tier == "thorough" else P.get("quick_profiles", P["profiles"])
+        bins = set()
+        for st in P["streams"]:
+            bins.update(stream_bins(st, tier))
 
         def jobs(bin_path):
             js = []
             for prof in profiles:
-                for b in bins:
-                    for s in range(shards):
-                        js.append(dict(kind="pipe", body=P["body"],
-                                       drv=[bin_path(prof, b), "--seed", str(seed), "--n", str(n),
-                                            "--shard", "%d/%d" % (s, shards)] + P.get("drv_args", [])
-                                       + P.get("drv_args_tier", {}).get(tier, []),
-                                       mon=[PY, MON, P["module"], prop, prof] + P.get("mon_args", []),
-                                       timeout=P.get("timeout", {}).get(tier, 1800 if tier == "quick" else 7200)))
+                for st in P["streams"]:
+                    shards = st["shards"][tier]
+                    for b in stream_bins(st, tier):
+                        for s in range(shards):
+                            js.append(dict(kind="pipe", body=st["body"],
+                                           drv=[bin_path(prof, b), "--seed", str(seed), "--n", str(st["n"][tier]),
+                                                "--shard", "%d/%d" % (s, shards)] + st["args"] + st["args_tier"].get(tier, []),
+                                           mon=[PY, MON, P["module"], prop, prof] + P.get("mon_args", []),
+                                           timeout=1800 if tier == "quick" else 4 * 3600))
             return js
-        nlay = 106 if tier == "quick" else 506
+        nlay = P.get("nlay", {"quick": 106, "thorough": 506})[tier]
         out = dict(P)
-        out.update(build={p: set(bins) for p in profiles}, jobs=jobs,
-                   floor=_floor_layout(P, tier, P.get("nlay", {}).get(tier, nlay)),
-                   assumptions=ASSUME)
+        out.update(build={p: set(bins) for p in profiles}, jobs=jobs, floor=_floor(P, tier, nlay), assumptions=ASSUME,
+                   body=P["streams"][0]["body"])
         return out
     import plans_extra
     return plans_extra.plan(prop, tier, seed)
@@ -130,13 +175,41 @@ ASSUME = [
     "a run decides only the operands it generated (plus the exhaustive small scopes named in the rule)",
 ]
 
+OP_BODY = {"fi": "convi", "fb": "convi", "fs": "convi", "ff": "xtype", "fl": "flt"}
+
+
+def replay_bin(body, line):
+    """which generated bin replays an event line of a body"""
+    t = line.split()
+    if body == "xtype":
+        # search the pair lists
+        import re
+        src = open(os.path.join(ROOT, "harness", "drv", "src", "layouts.rs")).read()
+        ls, ld = t[1], t[2]
+
+        def pat(l):
+            return "%s, %d, %d" % ("true" if l[0] == "i" else "false", int(l[1:].split(".")[0]), int(l[1:].split(".")[1]))
+        cur = None
+        for ln in src.splitlines():
+            m = re.match(r"macro_rules! pairs_(x[qt]\d+)", ln)
+            if m:
+                cur = m.group(1)
+            elif ln.startswith("macro_rules!"):
+                cur = None
+            elif cur and (pat(ls) + ", Fixed") in ln and ln.rstrip().endswith(pat(ld) + ");"):
+                return "xtype_" + cur
+        raise SystemExit("type pair %s -> %s is in no generated pair list" % (ls, ld))
+    return "%s_%s" % (body, chunk_of(t[1]))
+
 
 def replay_plan(prop, hdr, lines):
-    if prop in LAYOUT_PLANS:
-        P = LAYOUT_PLANS[prop]
-        body = hdr.get("body", P["body"])
-        layname = lines[0].split()[1]
-        b = "%s_%s" % (body, chunk_of(layname))
+    if prop in PLANS:
+        P = PLANS[prop]
+        op = lines[0].split()[0]
+        body = hdr.get("body")
+        if not body or body == "None":
+            body = OP_BODY.get(op, P["streams"][0]["body"])
+        b = replay_bin(body, lines[0])
         profs = ["release", "checked"]
 
         def job(bin_path, prof, inp):
@@ -150,10 +223,10 @@ def replay_plan(prop, hdr, lines):
 def setup_build():
     """everything the quick tier needs, both profiles"""
     bins = {"release": set(), "checked": set()}
-    for prop, P in LAYOUT_PLANS.items():
+    for prop, P in PLANS.items():
         for prof in P.get("quick_profiles", P["profiles"]):
-            for c in QUICK_CHUNKS:
-                bins[prof].add("%s_%s" % (P["body"], c))
+            for st in P["streams"]:
+                bins[prof].update(stream_bins(st, "quick"))
     try:
         import plans_extra
         plans_extra.setup_build(bins)
